@@ -1071,7 +1071,7 @@ Qed.
 (* two heaps that differ at most in the contents of connections and in the index fields of queries *)
 Definition cell_sim (c c' : option cell) : Prop :=
   match c, c' with
-  | Some (CQuery q), Some (CQuery q') => q_cb q' = q_cb q
+  | Some (CQuery q), Some (CQuery q') => q_cb q' = q_cb q /\ q_cancelled q' = q_cancelled q
   | Some (CConn _), Some (CConn _) => True
   | Some (CHost h), Some (CHost h') => h' = h
   | Some COpaque, Some COpaque => True
@@ -1230,7 +1230,7 @@ Proof.
       + intros [c1 [H1 H2]]. inversion H1; subst. reflexivity. }
   assert (Hsim : forall o, cell_sim (cell_of s o) (cell_of s3 o)).
   { intros o. rewrite Hc3. destruct (Nat.eqb o qo) eqn:E.
-    - apply Nat.eqb_eq in E. subst. rewrite Hq. reflexivity.
+    - apply Nat.eqb_eq in E. subst. rewrite Hq. split; reflexivity.
     - apply cell_sim_strip. }
   destruct (hosts_sim x s s3 I) as [HI3 [HF3 Eho3]]; auto.
   exists s3. split; [reflexivity|].
@@ -1455,7 +1455,7 @@ Proof.
       + rewrite En. lia.
       + unfold linked. rewrite El. reflexivity.
       + intros o'. rewrite Hc1. destruct (Nat.eqb o' qo) eqn:E.
-        * apply Nat.eqb_eq in E. subst. rewrite Hq. reflexivity.
+        * apply Nat.eqb_eq in E. subst. rewrite Hq. split; reflexivity.
         * apply cell_sim_strip. }
   split; [|split; [|repeat (split; [first [reflexivity | assumption | (simpl; congruence)]|])]].
   - (* Inv s2 *)
@@ -1496,13 +1496,13 @@ Proof.
     + intros o. change (host_at s2 o) with (host_at s1 o).
       destruct (sim_views s s1) as [Hv _]; auto.
       intros o'. rewrite Hc1. destruct (Nat.eqb o' qo) eqn:E.
-      * apply Nat.eqb_eq in E. subst. rewrite Hq. reflexivity.
+      * apply Nat.eqb_eq in E. subst. rewrite Hq. split; reflexivity.
       * apply cell_sim_strip.
     + intros o. rewrite Hnr. apply nrefs_same.
       * unfold linked. rewrite El. reflexivity.
       * intros qo' _. destruct (sim_views s s1) as [_ Hv]; auto.
         intros o'. rewrite Hc1. destruct (Nat.eqb o' qo) eqn:E.
-        -- apply Nat.eqb_eq in E. subst. rewrite Hq. reflexivity.
+        -- apply Nat.eqb_eq in E. subst. rewrite Hq. split; reflexivity.
         -- apply cell_sim_strip.
     + intros o h Hs. eapply shared_lt; eauto. exact (inv_heap _ _ I).
     + unfold GivenOk. destruct (kbot (q_cb q)) as [o|] eqn:Ek; auto.
@@ -1934,7 +1934,7 @@ Qed.
 Lemma attach_ext s s' qo q co c q' :
   Inv s -> In qo (linked s) -> cell_of s qo = Some (CQuery q) -> cell_of s co = Some (CConn c) -> c_closed c = false ->
   In co (st_conns s) ->
-  q_cb q' = q_cb q -> q_qid q' = q_qid q -> q_conn q' = Some co ->
+  q_cb q' = q_cb q -> q_cancelled q' = q_cancelled q -> q_qid q' = q_qid q -> q_conn q' = Some co ->
   heap_ok s' -> st_lists s' = st_lists s -> st_byqid s' = st_byqid s -> st_conns s' = st_conns s ->
   st_scripts s' = st_scripts s -> st_next s <= st_next s' ->
   st_bytmo s' = remove_nat qo (st_bytmo s) ++ [qo] ->
@@ -1944,7 +1944,7 @@ Lemma attach_ext s s' qo q co c q' :
      else option_map (strip qo) (cell_of s o)) ->
   Inv s' /\ Frame s s' [] /\ chain s' = chain s /\ linked s' = linked s.
 Proof.
-  intros I Hl Hq Hc Hncl Hcin Ecb Eqid Econn Hh El Eb Eco Esc Hnx Ebt Hcell.
+  intros I Hl Hq Hc Hncl Hcin Ecb Ecn Eqid Econn Hh El Eb Eco Esc Hnx Ebt Hcell.
   assert (Hne : co <> qo) by (intros ->; rewrite Hq in Hc; discriminate).
   assert (Ell : linked s' = linked s) by (unfold linked; rewrite El; reflexivity).
   assert (Hquery : forall o q0, cell_of s o = Some (CQuery q0) ->
@@ -1973,7 +1973,7 @@ Proof.
     rewrite Ecb. reflexivity. }
   destruct (hosts_sim None s s' I) as [HI' [HF' Eho]]; auto.
   { intros o. rewrite Hcell. destruct (Nat.eqb o qo) eqn:E.
-    - apply Nat.eqb_eq in E. subst. rewrite Hq. exact Ecb.
+    - apply Nat.eqb_eq in E. subst. rewrite Hq. split; [exact Ecb|exact Ecn].
     - destruct (Nat.eqb o co) eqn:E2.
       + apply Nat.eqb_eq in E2. subst. rewrite Hc. exact Logic.I.
       + apply cell_sim_strip. }
@@ -2120,7 +2120,8 @@ Lemma attach_run s qo q co c tcp :
     /\ st_scripts s' = st_scripts s /\ st_byqid s' = st_byqid s /\ st_trace s' = st_trace s
     /\ (forall o q0, cell_of s o = Some (CQuery q0) ->
           exists q1, cell_of s' o = Some (CQuery q1) /\ q_cb q1 = q_cb q0)
-    /\ (forall o, cell_sim (cell_of s o) (cell_of s' o)).
+    /\ (forall o, cell_sim (cell_of s o) (cell_of s' o))
+    /\ st_lists s' = st_lists s.
 Proof.
   intros I Hl Hq Hin Hc Hncl.
   pose proof (inv_heap _ _ I) as Hh.
@@ -2170,8 +2171,8 @@ Proof.
       * unfold s3. rewrite cell_store. destruct (Nat.eqb o co) eqn:E'.
         -- apply Nat.eqb_eq in E'. subst. rewrite Hc in Ho. discriminate.
         -- exists q0. rewrite Hcell2, Ho. auto.
-    + intros o. unfold s4. rewrite cell_store. destruct (Nat.eqb o qo) eqn:E.
-      * apply Nat.eqb_eq in E. subst. rewrite Hq. reflexivity.
+    + split; [|reflexivity]. intros o. unfold s4. rewrite cell_store. destruct (Nat.eqb o qo) eqn:E.
+      * apply Nat.eqb_eq in E. subst. rewrite Hq. split; reflexivity.
       * unfold s3. rewrite cell_store. destruct (Nat.eqb o co) eqn:E'.
         -- apply Nat.eqb_eq in E'. subst. rewrite Hc. exact Logic.I.
         -- rewrite Hcell2. apply cell_sim_strip.
